@@ -1,4 +1,6 @@
 import Juniper.Model.Pipe
+import Juniper.Model.Skeleton
+import Juniper.Generated.Skeleton
 import Juniper.Proofs.PipeFifo
 import Juniper.Proofs.PipeNoLoss
 import Juniper.Proofs.PipeLive
@@ -40,6 +42,19 @@ def demo : List Label :=
 the model interprets (no arm it would ignore), and `Pipe` wires both halves to the same channels,
 `Close` stores the error before closing `senderDone`. -/
 theorem tables_exact : tablesKnown = true ∧ wiringOK = true := by decide
+
+/-- Tie 1 for the control flow *between* the tables: the LTS hard-wires that `Send` is one `select`,
+`TrySend` two non-blocking `select`s and nothing else, `Next` one `select` whose `senderDone` arm is the
+drain followed by the report, `Close` = store the error, then `close(senderDone)`. The statement-kind
+skeletons regenerated from `stream/stream.go` (`Juniper.Gen.Skeleton`: one token per statement, in
+source order, nested blocks flattened, identifiers and operands normalised away, `select` arms in
+canonical order) are exactly the ones written down in `Model/Skeleton.lean`: no statement was added
+(a fast path, a bare channel operation, an early `return`), removed or moved. -/
+theorem skeleton_ok :
+    Gen.Skeleton.pipe = Model.Skeleton.pipe ∧ Gen.Skeleton.send = Model.Skeleton.send ∧
+    Gen.Skeleton.trySend = Model.Skeleton.trySend ∧ Gen.Skeleton.senderClose = Model.Skeleton.senderClose ∧
+    Gen.Skeleton.pipeNext = Model.Skeleton.pipeNext ∧ Gen.Skeleton.pipeClose = Model.Skeleton.pipeClose := by
+  decide
 
 /-- The buffer never exceeds the capacity `make(chan T, bufferSize)` was given, which is
 `bufferSize` itself. -/
@@ -128,14 +143,16 @@ example : ∃ st s1 s2, Reach (init 2 2) st ∧ Quiet st ∧ step st (.recv .dfl
 /-- **Send returns once the receiver closes, the sender closes or its context expires.** In any
 state in which a `Send` is pending and one of the three holds, an arm of its `select` that makes it
 return is enabled; and whatever step happens next, the call has either returned or is still
-pending with the condition still true (the condition is stable). -/
+pending with the condition still true (the condition is stable). That `Send` *is* that one `select`
+and nothing else is the first conjunct (regenerated control skeleton). -/
 theorem send_never_stuck {st : State} {i : Nat} {sd : Sender} {m : Msg}
     (hsd : st.senders[i]? = some sd) (hpc : sd.pc = .send m)
     (hc : st.streamDone = true ∨ st.senderDone = true ∨ sd.ctx = true) :
+    Gen.Skeleton.send = Model.Skeleton.send ∧
     (∃ a st' sd', step st (.sender i a) = some st' ∧ st'.senders[i]? = some sd' ∧ sd'.pc = .idle) ∧
     (∀ l st', step st l = some st' → ∃ sd', st'.senders[i]? = some sd' ∧
       (sd'.pc = .idle ∨ (sd'.pc = .send m ∧ (st'.streamDone = true ∨ st'.senderDone = true ∨ sd'.ctx = true)))) := by
-  constructor
+  refine ⟨by decide, ?_, ?_⟩
   · obtain ⟨a, st', hs⟩ := send_enabled ⟨by decide, by decide, by decide⟩ hsd hpc hc
     obtain ⟨sd', hsd', hlt⟩ := sender_step_progress hsd (Or.inr ⟨a, rfl⟩) hs
     refine ⟨a, st', sd', hs, hsd', ?_⟩
@@ -150,18 +167,20 @@ example : ∃ st sd m, Reach (init 2 2) st ∧ st.senders[0]? = some sd ∧ sd.p
   ⟨after (init 2 2) (demo.take 7), ⟨.send ⟨0, 1, 9⟩, false, [⟨0, 0, 7⟩, ⟨0, 1, 9⟩]⟩, ⟨0, 1, 9⟩,
    reach_after (by decide), by decide, by decide, by decide, by decide⟩
 
-/-- **TrySend never blocks.** Both of its `select` statements have a `default` arm (regenerated
-tables); hence in every state a pending `TrySend` has an enabled step of its own, and each of its
+/-- **TrySend never blocks.** Its body consists of exactly two `select` statements — no statement
+before, between or after them that could block or return early (regenerated control skeleton) —, both
+with a `default` arm (regenerated tables); hence in every state a pending `TrySend` has an enabled step of its own, and each of its
 steps takes it to the next `select` or returns — it returns after at most two own steps without
 waiting for any other goroutine. -/
 theorem trySend_never_blocks {st : State} {i : Nat} {sd : Sender} {m : Msg}
     (hsd : st.senders[i]? = some sd) (hpc : sd.pc = .try1 m ∨ sd.pc = .try2 m) :
+    Gen.Skeleton.trySend = Model.Skeleton.trySend ∧
     (trySendArms1.contains .dflt = true ∧ trySendArms2.contains .dflt = true) ∧
     (∃ l st', (l = .handoff i ∨ ∃ a, l = .sender i a) ∧ step st l = some st') ∧
     (∀ l st', (l = .handoff i ∨ ∃ a, l = .sender i a) → step st l = some st' →
       ∃ sd', st'.senders[i]? = some sd' ∧ stage sd'.pc < stage sd.pc) ∧
     stage sd.pc ≤ 2 :=
-  ⟨⟨by decide, by decide⟩, trySend_enabled ⟨by decide, by decide, by decide⟩ hsd hpc,
+  ⟨by decide, ⟨by decide, by decide⟩, trySend_enabled ⟨by decide, by decide, by decide⟩ hsd hpc,
     fun _ _ hl hs => sender_step_progress hsd hl hs,
     by rcases hpc with h | h <;> simp [h, stage]⟩
 
@@ -176,8 +195,11 @@ example : ∃ st sd m, Reach (init 2 2) st ∧ st.senders[1]? = some sd ∧ sd.p
 state in which `Next` is parked in its main `select` and one of these holds, a step of the receiver
 is enabled and takes `Next` strictly closer to its return; in the drain (if the source has one) it never waits at all (it
 returns with the next step of the receiver); and the stable part of the condition — a buffered
-value, the sender's `Close`, the expired context — persists while `Next` is parked. -/
+value, the sender's `Close`, the expired context — persists while `Next` is parked. First conjunct:
+`Next` is that `select` (with the drain `select` and the report inside its `senderDone` arm) and
+nothing else (regenerated control skeleton). -/
 theorem next_never_stuck {st : State} :
+    Gen.Skeleton.pipeNext = Model.Skeleton.pipeNext ∧
     (st.rpc = .next →
       (st.buf ≠ [] ∨ (∃ sd ∈ st.senders, canHandoff st sd = true) ∨ st.senderDone = true ∨ st.rctx = true) →
       ∃ l st', isRecvLabel l = true ∧ step st l = some st' ∧ rstage st'.rpc < rstage st.rpc) ∧
@@ -187,7 +209,7 @@ theorem next_never_stuck {st : State} :
       ∀ l st', step st l = some st' →
         st'.rpc ≠ .next ∨ (st'.buf ≠ [] ∨ st'.senderDone = true ∨ st'.rctx = true)) := by
   have hF : NextFacts := ⟨by decide, by decide, by decide, fun _ => by decide, fun _ => by decide, by decide⟩
-  exact ⟨fun hpc hc => next_enabled hF hpc hc, fun hd hpc => drain_enabled hF hd hpc,
+  exact ⟨by decide, fun hpc hc => next_enabled hF hpc hc, fun hd hpc => drain_enabled hF hd hpc,
     fun hpc hc l st' hs => next_cond_stable hpc hc hs⟩
 
 
@@ -240,13 +262,16 @@ example : ∃ st st', Reach (init 1 1) st ∧ step st (.sender 0 (.recv chCtx)) 
 /-- **The close error surfaces after the data.** When `Next` reports, the sender has been closed,
 what is reported is the error it was closed with (the normal end only if that was `nil`) — read off
 the regenerated statements that follow the drain — and everything sent ahead of the `Close` has
-been delivered. -/
+been delivered. First conjunct: `Close(err)` is "store `err`, close `senderDone`" and `Next` has no
+statement besides its `select`, the drain and that report — no test of the error's *kind* in between
+(regenerated control skeletons). -/
 theorem pipe_close_error_after_data {n b : Nat} {st st' : State} {l : Label} (hr : Reach (init n b) st)
     (hs : step st l = some st') (hrep : reportsEnd st l = true) :
+    (Gen.Skeleton.senderClose = Model.Skeleton.senderClose ∧ Gen.Skeleton.pipeNext = Model.Skeleton.pipeNext) ∧
     st.senderDone = true ∧ endResult st = (if st.senderErr then "err" else "end") ∧
     ∀ m ∈ st'.ackedBC, m ∈ st'.delivered := by
   obtain ⟨_, hrpc, _, _, _⟩ := report_only_when_drained ⟨by decide, by decide, by decide⟩ hs hrep
-  refine ⟨(inv_reach (by decide) hr).drain hrpc, ?_, (pipe_no_loss_at_report hr hs hrep).2.2⟩
+  refine ⟨⟨by decide, by decide⟩, (inv_reach (by decide) hr).drain hrpc, ?_, (pipe_no_loss_at_report hr hs hrep).2.2⟩
   have : (nextEndStmts == ["err := *s.senderErr", "if err != nil {", "return zero, err", "}", "return zero, End"]) = true := by decide
   simp [endResult, this]
 
